@@ -11,7 +11,9 @@ import (
 	"os/exec"
 	"path/filepath"
 	"sort"
+	"strconv"
 	"strings"
+	"sync"
 )
 
 type seedMeta struct {
@@ -59,55 +61,74 @@ func runSeeds(props map[string]bool) ([]selftestResult, bool) {
 		}
 		jobs = append(jobs, job{seedMeta{ID: "own:" + strings.TrimSuffix(filepath.Base(pf), ".patch"), Property: strings.TrimSpace(string(pb)), Confirmed: true}, pf})
 	}
+	var active []job
 	for _, jb := range jobs {
-		m := jb.m
-		mf := jb.patch
-		if len(props) > 0 && !props[m.Property] {
+		if len(props) > 0 && !props[jb.m.Property] {
 			continue
 		}
-		r := selftestResult{Seed: m.ID, Property: m.Property}
-		scr, err := os.MkdirTemp("", "hvc-selftest-")
-		if err != nil {
-			r.Note = err.Error()
-			out = append(out, r)
-			allCaught = false
-			continue
-		}
-		outDir, _ := os.MkdirTemp("", "hvc-selftest-out-")
-		func() {
-			defer os.RemoveAll(scr)
-			defer os.RemoveAll(outDir)
-			if b, err := exec.Command("rsync", "-a", "--exclude", ".git", "--exclude", "doc", repoRoot+"/", scr+"/").CombinedOutput(); err != nil {
-				r.Note = "copy failed: " + string(b)
-				return
-			}
-			p := exec.Command("patch", "-s", "-p1", "--no-backup-if-mismatch", "-i", mf)
-			p.Dir = scr
-			if b, err := p.CombinedOutput(); err != nil {
-				r.Note = "patch does not apply to the current tree: " + clip(string(b), 200)
-				return
-			}
-			c := exec.Command(self, "check", m.Property, "--tier", "quick")
-			c.Env = append(os.Environ(), "HVC_REPO="+scr, "HVC_OUT="+outDir, "HVC_NO_SELFTEST=1")
-			b, _ := c.CombinedOutput()
-			for _, l := range strings.Split(string(b), "\n") {
-				if strings.HasPrefix(l, "VIOLATION") {
-					r.Violations++
-					if r.First == "" {
-						if i := strings.Index(l, "obligation="); i >= 0 {
-							r.First = strings.Fields(l[i+len("obligation="):])[0]
-						}
-					}
-				}
-			}
-			r.Caught = r.Violations > 0
-		}()
+		active = append(active, jb)
+	}
+	results := make([]selftestResult, len(active))
+	workers := 4
+	if v, err := strconv.Atoi(os.Getenv("HVC_SELFTEST_WORKERS")); err == nil && v > 0 {
+		workers = v
+	}
+	sem := make(chan struct{}, workers)
+	var wg sync.WaitGroup
+	for i, jb := range active {
+		wg.Add(1)
+		go func(i int, jb job) {
+			defer wg.Done()
+			sem <- struct{}{}
+			defer func() { <-sem }()
+			results[i] = runOneSeed(self, jb.m, jb.patch)
+		}(i, jb)
+	}
+	wg.Wait()
+	for _, r := range results {
 		if !r.Caught {
 			allCaught = false
 		}
 		out = append(out, r)
 	}
 	return out, allCaught
+}
+
+func runOneSeed(self string, m seedMeta, mf string) selftestResult {
+	r := selftestResult{Seed: m.ID, Property: m.Property}
+	scr, err := os.MkdirTemp("", "hvc-selftest-")
+	if err != nil {
+		r.Note = err.Error()
+		return r
+	}
+	outDir, _ := os.MkdirTemp("", "hvc-selftest-out-")
+	defer os.RemoveAll(scr)
+	defer os.RemoveAll(outDir)
+	if b, err := exec.Command("rsync", "-a", "--exclude", ".git", "--exclude", "doc", repoRoot+"/", scr+"/").CombinedOutput(); err != nil {
+		r.Note = "copy failed: " + string(b)
+		return r
+	}
+	p := exec.Command("patch", "-s", "-p1", "--no-backup-if-mismatch", "-i", mf)
+	p.Dir = scr
+	if b, err := p.CombinedOutput(); err != nil {
+		r.Note = "patch does not apply to the current tree: " + clip(string(b), 200)
+		return r
+	}
+	c := exec.Command(self, "check", m.Property, "--tier", "quick")
+	c.Env = append(os.Environ(), "HVC_REPO="+scr, "HVC_OUT="+outDir, "HVC_NO_SELFTEST=1", "HVC_SCRATCH="+filepath.Join(outDir, "scratch"))
+	b, _ := c.CombinedOutput()
+	for _, l := range strings.Split(string(b), "\n") {
+		if strings.HasPrefix(l, "VIOLATION") {
+			r.Violations++
+			if r.First == "" {
+				if i := strings.Index(l, "obligation="); i >= 0 {
+					r.First = strings.Fields(l[i+len("obligation="):])[0]
+				}
+			}
+		}
+	}
+	r.Caught = r.Violations > 0
+	return r
 }
 
 func runSelftest(args []string) int {
